@@ -917,7 +917,7 @@ func (w *world) settle() error {
 					}
 					progress = true
 				}
-				if w.opt.EagerLU && n.up && d.live() && len(d.updCh) > 0 && n.r.state == Leader && n.r.ldr.replUpdateCh != nil && n.loopGate.isParked() {
+				if w.opt.EagerLU && n.up && len(d.updCh) > 0 && n.r.state == Leader && n.r.ldr.replUpdateCh != nil && (d.live() || n.r.ldr.startIndex == d.repl.ldrStartIndex) && n.loopGate.isParked() {
 					for len(d.updCh) > 0 {
 						n.r.ldr.replUpdateCh <- <-d.updCh
 					}
